@@ -2,6 +2,7 @@ package main
 
 import (
 	"bytes"
+	"encoding/binary"
 	"fmt"
 	"reflect"
 	"strings"
@@ -332,6 +333,7 @@ func runC16(c *Ctx) {
 		}
 	}
 	c16EnumRedefined(c)
+	c16DateTime64Reparametrised(c)
 	// exhaustive short histories over a small alphabet on the stateful types
 	alpha := []string{"append", "encode", "reset", "decode", "block"}
 	maxLen := 4
@@ -563,6 +565,128 @@ func c16EnumRedefined(c *Ctx) {
 					}
 					// and once more: encoding again re-sends the same rows
 					check(how, col, pair[1], want, cs)
+				}
+			}
+		}
+	}
+}
+
+// a DateTime64 column kept across blocks whose precision changes (Infer with other parameters between a Reset and the next
+// decode / append): the values must be read and written at the precision in force, bare and under the wrappers
+func c16DateTime64Reparametrised(c *Ctx) {
+	R := c.R
+	type step struct {
+		prec int
+		raw  int64
+	}
+	// the same instant 2020-09-13T12:26:40.123456789Z at each precision
+	at := func(p int) int64 {
+		v := int64(1600000000)
+		frac := int64(123456789)
+		for i := 0; i < p; i++ {
+			v *= 10
+		}
+		for i := p; i < 9; i++ {
+			frac /= 10
+		}
+		return v + frac
+	}
+	want := func(p int) time.Time {
+		frac := int64(123456789)
+		for i := p; i < 9; i++ {
+			frac /= 10
+		}
+		for i := p; i < 9; i++ {
+			frac *= 10
+		}
+		return time.Unix(1600000000, frac).UTC()
+	}
+	for _, seq := range [][]int{{3, 6}, {6, 3}, {0, 9}, {9, 0}, {3, 3, 6}, {3, 6, 3}} {
+		for _, shape := range []string{"bare", "auto", "nullable", "array"} {
+			var col proto.Column
+			dt := new(proto.ColDateTime64)
+			au := new(proto.ColAuto)
+			switch shape {
+			case "bare":
+				col = dt
+			case "auto":
+				col = au
+			case "nullable":
+				col = dt.Nullable()
+			case "array":
+				col = dt.Array()
+			}
+			cs := map[string]any{"shape": shape, "precisions": fmt.Sprint(seq)}
+			R.Case(fmt.Sprintf("dt64-reparam|%s|%v", shape, seq), true)
+			R.Count("shape:datetime64-reparametrised")
+			for k, p := range seq {
+				ty := fmt.Sprintf("DateTime64(%d)", p)
+				wire := binary.LittleEndian.AppendUint64(nil, uint64(at(p)))
+				switch shape {
+				case "nullable":
+					ty = "Nullable(" + ty + ")"
+					wire = append([]byte{0}, wire...)
+				case "array":
+					ty = "Array(" + ty + ")"
+					wire = append(binary.LittleEndian.AppendUint64(nil, 1), wire...)
+				}
+				inf, ok := col.(proto.Inferable)
+				if !ok {
+					break
+				}
+				if shape != "auto" || au.Data != nil {
+					col.Reset()
+				}
+				if err := inf.Infer(proto.ColumnType(ty)); err != nil {
+					R.Violate(Violation{Kind: "oracle", Key: "reuse-infer-error", What: fmt.Sprintf("Infer(%s) on the reused column failed: %v", ty, err), Case: cs})
+					break
+				}
+				if err := col.DecodeColumn(proto.NewReader(bytes.NewReader(wire)), 1); err != nil {
+					R.Violate(Violation{Kind: "oracle", Key: "reuse-decode-differs-from-fresh", What: fmt.Sprintf("step %d: decoding one %s value into the reused column failed: %v", k, ty, err), Case: cs})
+					break
+				}
+				held := col
+				if shape == "auto" {
+					held = au.Data
+				}
+				if held.Type().Conflicts(proto.ColumnType(ty)) || !strings.Contains(string(held.Type()), fmt.Sprintf("DateTime64(%d", p)) {
+					cs["step"] = k
+					R.Violate(Violation{Kind: "oracle", Key: "reuse-decode-differs-from-fresh", What: fmt.Sprintf("step %d: after Infer(%s) the reused column reports the type %s", k, ty, held.Type()), Case: cs})
+					break
+				}
+				var got time.Time
+				gotOK := false
+				safely(func() {
+					switch v := held.(type) {
+					case *proto.ColDateTime64:
+						got, gotOK = v.Row(0), true
+					case *proto.ColNullable[time.Time]:
+						got, gotOK = v.Row(0).Value, true
+					case *proto.ColArr[time.Time]:
+						if r0 := v.Row(0); len(r0) == 1 {
+							got, gotOK = r0[0], true
+						}
+					}
+				})
+				if !gotOK {
+					R.Count("dt64-reparam:row-not-readable")
+					break
+				}
+				if !got.Equal(want(p)) {
+					cs["step"] = k
+					R.Violate(Violation{Kind: "oracle", Key: "reuse-decode-differs-from-fresh", What: fmt.Sprintf("step %d: the value %d decoded as %s into the reused column reads %s, a fresh column reads %s", k, at(p), ty, got.UTC().Format(time.RFC3339Nano), want(p).Format(time.RFC3339Nano)), Case: cs})
+					break
+				}
+				// and the encode side: the bytes of the column are the value at the precision in force
+				var b proto.Buffer
+				if pr, ok := held.(proto.Preparable); ok {
+					_ = pr.Prepare()
+				}
+				held.EncodeColumn(&b)
+				if !bytes.Equal(b.Buf, wire) {
+					cs["step"] = k
+					R.Violate(Violation{Kind: "oracle", Key: "reuse-encode-wrong-values", What: fmt.Sprintf("step %d: re-encoding the reused %s column gives %s, want %s", k, ty, hx(b.Buf), hx(wire)), Case: cs})
+					break
 				}
 			}
 		}
